@@ -91,6 +91,12 @@ func (c *Ctx) Fail(rule, key string, pos token.Pos, format string, args ...any) 
 	c.add(rule, key, Violated, pos, 1, format, args...)
 }
 
+// FailConfined records the violation of a confinement rule ("only these functions may touch X"): such a rule speaks
+// about every function, the ones it has never seen included, so opacity does not soften it.
+func (c *Ctx) FailConfined(rule, key string, pos token.Pos, format string, args ...any) {
+	c.add(rule, key, Violated, pos, 1, format, args...)
+}
+
 func (c *Ctx) Undecided(rule, key string, format string, args ...any) {
 	c.add(rule, key, Undecided, token.NoPos, 0, format, args...)
 }
